@@ -3037,8 +3037,13 @@ define_method(CPPInstance *function, InterrogateType &itype,
     // we're already inheriting it properly.  However, we may need to make an
     // exception in the presence of multiple inheritance.
     if ((ftype->_flags & CPPFunctionType::F_destructor) != 0) {
-      itype._flags |= InterrogateType::F_inherited_destructor;
-      return;
+      CPPStructType *base = struct_type->_derivation[0]._base->as_struct_type();
+      if (base != nullptr && base->is_destructible(V_public)) {
+        itype._flags |= InterrogateType::F_inherited_destructor;
+        return;
+      }
+      // The base class destructor is not accessible, so we have to export
+      // this one after all.
     }
 
     // Let's make sure the that first appearance of the function is actually
